@@ -7,6 +7,7 @@ import (
 	"fmt"
 	"go/ast"
 	"go/types"
+	"io"
 	"os"
 	"path"
 	"path/filepath"
@@ -475,8 +476,9 @@ func firstLine(file string) (string, error) {
 
 	r := bufio.NewReader(f)
 	line, err := r.ReadString('\n')
-	if err != nil {
+	if err != nil && err != io.EOF {
 		return "", err
 	}
+	//a file without a trailing newline still has a first line
 	return line, nil
 }
